@@ -612,6 +612,11 @@ func (s *Server) validateConnect(cl *Client, pk packets.Packet) packets.Code {
 // session is abandoned.
 func (s *Server) inheritClientSession(pk packets.Packet, cl *Client) bool {
 	if existing, ok := s.Clients.Get(cl.ID); ok {
+		if !(pk.Connect.Clean || (existing.Properties.Clean && existing.Properties.ProtocolVersion < 5)) {
+			// The session is resumed: mark it before the old connection is closed, or its handler can
+			// pass the taken-over test first and tear down (unsubscribe, clear) the state inherited below.
+			existing.State.isTakenOver.Store(true)
+		}
 		_ = s.DisconnectClient(existing, packets.ErrSessionTakenOver)                                   // [MQTT-3.1.4-3]
 		verifPoint("inherit.existing_disconnected", cl.ID)
 		if pk.Connect.Clean || (existing.Properties.Clean && existing.Properties.ProtocolVersion < 5) { // [MQTT-3.1.2-4] [MQTT-3.1.4-4]
